@@ -260,7 +260,8 @@ CHECKS = {
     "C12": dict(stages=[Stage("mp", "TraceMerge", plan_mp)], design=["MCMerge"],
                 rule="session = one merge patch document read by ReadMergeString and applied to every target of the family"),
     "C13": dict(stages=[Stage("cr", "TraceCrash", plan_cr, extra={"tier": "TIER"}),
-                        Stage("proc", "TraceCli", lambda t, s, p: [], bins=True, extra={"frac": "FRAC"})], design=["MCText", "MCCli"],
+                        Stage("proc", "TraceCli", lambda t, s, p: [], bins=True, extra={"frac": "FRAC"}),
+                        Stage("crcli", "TraceCli", lambda t, s, p: [], bins=True, extra={"n": "NCLI"})], design=["MCText", "MCCli"],
                 rule="session = one input: a line sequence over 46 line kinds (all of length <= 2, sampled/all of length 3, seeded longer ones), "
                      "a structurally valid hunk with arbitrary path built from fields and through text, an op sequence, or a seeded byte "
                      "mutation of a valid text; every accepted diff is applied to documents of every kind"),
@@ -367,7 +368,7 @@ def run_check(prop, tier, seed, keep=False, only=None):
             for ch in range(nchunks):
               plan = dict(driver=st.driver, seed=seed, table=table_path(st.table), yaml_every=st.yaml_every,
                         items=st.planfn(tier, seed, props_judged), bins=bins or {},
-                        extra={k: (tier if v == "TIER" else (0.12 if tier == "quick" else 1.0) if v == "FRAC" else ("histories_2" if tier == "quick" else "histories_3") if v == "HIST" else v)
+                        extra={k: (tier if v == "TIER" else (0.12 if tier == "quick" else 1.0) if v == "FRAC" else (300 if tier == "quick" else 6000) if v == "NCLI" else ("histories_2" if tier == "quick" else "histories_3") if v == "HIST" else v)
                                for k, v in st.extra.items()})
               if nchunks > 1:
                   plan["extra"]["chunk"] = [ch, nchunks]
